@@ -2338,12 +2338,19 @@ def shrink(case):
 # ---- MANIFEST texts ------------------------------------------------------------------------
 LEVEL_TEXT = ("Lean 4 theorems about a transcribed model of get_recursively/str_to_dict/contains/format_context/to_string/"
               "update_recursively/format_update_with/UpdateContext/DeleteContext/SetContext/Context over insertion-ordered "
-              "string-keyed dictionaries with lists, floats and foreign objects as values (to_string also over non-string keys), for all contexts, key paths, templates and option combinations (no bound); the model is tied to /repo "
-              "by a correspondence check that enumerates small scopes exhaustively (contexts over 2 keys up to depth 3, paths of "
-              "length 0..4, three notations, the whole UpdateContext option matrix, all short templates) and samples larger ones, "
-              "plus a reference oracle (naive path lookup / set / delete / render) on the real code including observed deep-copy "
-              "behaviour.")
+              "string-keyed dictionaries with lists, floats and foreign objects as values (to_string also over non-string keys), for "
+              "all contexts, key paths, templates and option combinations (no bound), including end-to-end statements from the "
+              "constructor arguments of UpdateContext to the outcome of a call and the exception sets of every callable; 'different "
+              "dictionaries give different strings' is proved for tokens (all values) and for the characters of the string (values "
+              "without numbers; JSON string escaping proved a prefix code). The model is tied to /repo by a correspondence check "
+              "that enumerates small scopes exhaustively (contexts over 2 keys up to depth 2 - in the thorough tier depth 3 -, "
+              "paths of length 0..4, the notations, the whole UpdateContext option matrix, all short templates) and samples "
+              "larger ones (quick: 400 of the 21609 depth-3 contexts), executes the specification-side definitions against Python "
+              "references, and a reference oracle (naive path lookup / set / delete / render) on the real code including "
+              "observed deep-copy behaviour.")
 LEVEL_NOTE = ("Trusted: Lean kernel (+ propext, Classical.choice, Quot.sound), the hand transcription validated by the "
-              "correspondence run, str.format/json.dumps/re/jinja2 fragments as transcribed, the JSON protocol.")
+              "correspondence run, str.format / json.dumps (number spelling) / re / str.isspace / jinja2 fragments as transcribed, "
+              "copy.deepcopy as identity on values (aliasing checked on the real code only), the JSON protocol. Model replies "
+              "'unmodelled' (counted in the evidence notes) are judged by the oracle only.")
 TECHNIQUE = "Lean 4 proof over hand-written model + correspondence check (exhaustive small scopes, sampled deeper) + reference oracle"
 DESIGN_REF = "DESIGN.md section 3, C08"
